@@ -216,6 +216,28 @@ class Runner:
                     return e
         return None
 
+    def registered_under(self, at, upper):
+        """is the deepest node at or above path [at] (strictly below [upper]) registered as locked under the node at [upper]?"""
+        try:
+            up = node_at(self.td, tuple(k for k in upper.split("/") if k))
+            parts = [k for k in at.split("/") if k]
+            nup = len([k for k in upper.split("/") if k])
+            low = None
+            for i in range(len(parts), nup, -1):
+                try:
+                    cand = node_at(self.td, tuple(parts[:i]))
+                except Exception:  # noqa: BLE001
+                    continue
+                if is_node(cand):
+                    low = cand
+                    break
+            if low is None:
+                return True
+            refs = low._lock_parents_weakrefs
+            return any(r() is up for r in refs)
+        except Exception:  # noqa: BLE001
+            return True
+
     def report(self, label, step, nodepath, methods, detail):
         methods = list(methods)
         try:
@@ -255,9 +277,13 @@ class Runner:
                 cause = "lazy-own-names-setter"     # the lazy stack's own setter carries @erase_cache: not a recorded defect
             elif cause == "metadata-under-lock" and "names" in methods and e["at"] != nodepath:
                 cause = "lazy-member-names"
-            if self.prog["spec"].get("lock") == "memmap_" and cause in ("make_memmap", "metadata-under-lock") \
-                    and e.get("at", "") != nodepath and is_prefix(nodepath, e.get("at", "")):
-                # D7: a memmap_-locked tree has no lock graph — the node that is written cannot reach the nodes above it
+            if e["effect"] == "flags" or (self.prog["spec"].get("lock") == "memmap_" and cause == "lazy-implicit-lock-cycle"):
+                # _is_memmap / _is_shared disagreeing inside a tree, members of a memmap_-locked tree unlocking alone: the lock layer (D7)
+                cause = "memmap-subtree-unlock"
+            if e.get("at", "") != nodepath and is_prefix(nodepath, e.get("at", "")) and not self.registered_under(e.get("at", ""), nodepath):
+                # the lock graph is incomplete (D7 family, owned by C05): the node that was written is not registered as locked
+                # under the node that reads — memmap_ builds no graph, and nested tensordicts attached under lock (make_memmap
+                # with a nested key) are not registered either — so its invalidation / its lock cannot reach that far
                 cause = "memmap-subtree-unlock"
             sig = {"cause": cause, "effect": e["effect"], "explained": True}
         else:
